@@ -130,6 +130,7 @@ REVERTS = {
     "revert-string-nul-trigraph": ("6101377", ["C13"]),
     "revert-go-json-tag": ("d148e36", ["C15", "C19"]),
     "revert-eof-line": ("3628257", ["C20", "C08"]),
+    "revert-lint-lower-digits": ("637f4dd", ["C20"]),
 }
 for _n, (_c, _p) in REVERTS.items():
     CATALOGUE[_n] = (_p, [("@revert", _c, "")], f"revert of fix {_c}")
